@@ -129,7 +129,7 @@ func SelfTestRaceSense(e *Env) int {
 		return 2
 	}
 	rc := 0
-	for _, mode := range []string{"racy-slice", "racy-var", "racy-map", "locked", "independent"} {
+	for _, mode := range []string{"racy-slice", "racy-var", "racy-map", "racy-under-rlock", "racy-beside-pool", "racy-beside-waitgroup", "racy-beside-channel", "locked", "wlocked", "pooled", "independent"} {
 		reports, runs := 0, 0
 		traces := map[string]bool{}
 		for _, procs := range []string{"1", "4", "16"} {
@@ -158,7 +158,7 @@ func SelfTestRaceSense(e *Env) int {
 			status = "FAILED"
 			rc = 2
 		}
-		fmt.Printf("racesense %-12s reports in %d/%d executions (want %d), distinct schedule traces %d (want 1): %s\n", mode, reports, runs, want, len(traces), status)
+		fmt.Printf("racesense %-22s reports in %d/%d executions (want %d), distinct schedule traces %d (want 1): %s\n", mode, reports, runs, want, len(traces), status)
 	}
 	return rc
 }
